@@ -191,7 +191,7 @@ package level
 //@   ensures ok ==> 0 <= idx && idx < len(h.values) && h.values[idx] == v            [@value]
 //@   ensures all(k, 0, old(len(h.values)), h.values[k] == old(h.values[k]))         [@frame]
 //@   ensures len(h.values) >= old(len(h.values)) && len(h.values) <= old(len(h.values)) + 1 && cap(h.values) == old(cap(h.values)) && h.bits == old(h.bits)   [@frame]
-//@   ensures !ok ==> idx == h.bits + 1 && len(h.values) == old(len(h.values)) && len(h.values) == cap(h.values)   [@value]
+//@   ensures !ok ==> idx == h.bits + 1 && len(h.values) == old(len(h.values)) && len(h.values) == cap(h.values) && !old(has(h.ids, int(v)))   [@value]
 //@   ensures hpwf(h)                                                                 [@wf]
 //@   modifies h.values, h.values[0:cap(h.values)], map(h.ids)                        [@frame]
 
@@ -384,3 +384,21 @@ package level
 //@ func (*Chunk).ReadFrom(c; r) (n, err)
 //@   stable c.Sections
 //@   requires len(c.Sections) < 1<<20
+
+// ---------------------------------------------------------------- PaletteContainer as an array (C12, C13)
+//
+// Abstract view: position i holds the state the palette assigns to the index stored at i.
+//   pval(p, k)  - the state that palette index k stands for, by implementation
+//   pview(p, i) - pval of the i-th entry of the bit storage
+// Representation invariant pcwf: the storage is well formed, its width is the container's, and
+// every stored index is valid for the palette (so value() cannot panic).
+//@ define pval(p, k) = ite(is(p.palette, singleValuePalette), int(as(p.palette, singleValuePalette).v), ite(is(p.palette, linearPalette), int(as(p.palette, linearPalette).values[k]), ite(is(p.palette, hashPalette), int(as(p.palette, hashPalette).values[k]), k)))
+//@ define pview(p, i) = pval(p, bsat(p.data, i))
+//@ define pidxok(p, k) = ite(is(p.palette, singleValuePalette), k == 0, ite(is(p.palette, linearPalette), 0 <= k && k < len(as(p.palette, linearPalette).values), ite(is(p.palette, hashPalette), 0 <= k && k < len(as(p.palette, hashPalette).values), true)))
+//@ define pcwf(p) = !isnil(p.palette) && !isnil(p.data) && off(p.data) == 0 && bswf(p.data) && p.data.bits == p.bits && all(j, 0, p.data.length, pidxok(p, bsat(p.data, j)))
+
+//@ func (*PaletteContainer).Get(p; i) (res)
+//@   requires pcwf(p) && 0 <= i && i < p.data.length
+//@   hint j = i
+//@   ensures int(res) == pview(p, i)                                                 [@value]
+//@   modifies nothing                                                                [@frame]
